@@ -61,19 +61,23 @@ def plumbing(E, fn, inner, first_param, value):
             continue
         a = calls[0]
         got_msg = a.get(first_param)
-        E.prove('%s[%s]/converts-the-callers-message' % (tag, variant), z3.BoolVal(got_msg is value or same_obj(got_msg, value)), 'P')
+        # identity is a proof device (an equal copy would serve the property as well): I-tier, the stand-in decides on failure
+        E.prove('%s[%s]/converts-the-callers-message' % (tag, variant), z3.BoolVal(got_msg is value or same_obj(got_msg, value)), 'I')
         if variant == 'default':
-            E.prove('%s[default]/packaged-configuration' % tag, z3.BoolVal(same_obj(a.get('bit_config'), packaged_bit_config(E))), 'P')
+            E.prove('%s[default]/packaged-configuration' % tag, z3.BoolVal(same_obj(a.get('bit_config'), packaged_bit_config(E))), 'I')
             e = a.get('encoding')
             E.prove('%s[default]/default-encoding' % tag, z3.BoolVal(e is NONE or (isinstance(e, VSeq) and conc_str(e) == 'latin_1')), 'P')
             h = a.get('hex_bitmap')
             E.prove('%s[default]/binary-bitmap' % tag, z3.BoolVal(isinstance(h, VBool) and bool_lit(h.t) is False), 'P')
         else:
-            E.prove('%s[%s]/the-configuration-object-the-caller-supplied' % (tag, variant), z3.BoolVal(same_obj(a.get('bit_config'), cfg)), 'P')
-            E.prove('%s[%s]/the-encoding-the-caller-supplied' % (tag, variant), z3.BoolVal(a.get('encoding') is enc), 'P')
+            E.prove('%s[%s]/the-configuration-object-the-caller-supplied' % (tag, variant), z3.BoolVal(same_obj(a.get('bit_config'), cfg)), 'I')
+            if isinstance(a.get('encoding'), VSeq):
+                E.prove_value_eq('%s[%s]/the-encoding-the-caller-supplied' % (tag, variant), a.get('encoding'), enc, 'P')
+            else:
+                E.prove('%s[%s]/the-encoding-the-caller-supplied' % (tag, variant), False, 'P')
             h = a.get('hex_bitmap')
             E.prove('%s[%s]/the-bitmap-rendering-the-caller-supplied' % (tag, variant), z3.BoolVal(isinstance(h, VBool)) if not isinstance(h, VBool) else h.t == hexb.t, 'P')
-        E.prove('%s[%s]/returns-the-conversion-unchanged' % (tag, variant), z3.BoolVal(out is ret or same_obj(out, ret)), 'P')
+        E.prove('%s[%s]/returns-the-conversion-unchanged' % (tag, variant), z3.BoolVal(out is ret or same_obj(out, ret)), 'I')
         # the caller's configuration is not modified by the entry point
     d = E.getf(cfg, 'val')
     E.prove(tag + '/callers-configuration-left-as-it-was', z3.BoolVal(isinstance(d, dict) and set(d) == {'2'}), 'P')
